@@ -32,4 +32,11 @@ var props = map[string]propCfg{
 		NotDecided: []string{"that go-cmp itself satisfies the assumed contract: validated only by the bounded differential run of the thorough tier (labelled bounded)"},
 		Bounded:    []func(*run){boundedOpEqual},
 	},
+	"C16": {
+		Modules: []string{"fc"},
+		Decided: []string{
+			"every scanner / tokenizer loop of wrapper.go terminates (variant) and makes progress on every byte string; token extents stay inside the buffer",
+		},
+		NotDecided: []string{"termination of the recursive-descent parser and of type inference (two known non-terminating inputs, DESIGN §6)"},
+	},
 }
